@@ -83,6 +83,13 @@ func c10Gen(idx int) c10Case {
 		if c.Backend == "memdb" {
 			c.Backend = "bolt-trimmed"
 		}
+		if rng.Chance(40) { // only lying peers answer the repair: whatever they send must not be written
+			liars := []string{"bad-signature", "wrong-round-label", "foreign-beacon-id", "bad-signature", "refuses"}
+			for i := range c.Peers {
+				c.Peers[i] = liars[rng.Intn(len(liars))]
+			}
+			c.Peers[0] = "bad-signature"
+		}
 		c.Start = c.Chain
 		nd := rng.Range(1, 4)
 		seen := map[uint64]bool{}
@@ -110,9 +117,12 @@ func (c c10Case) hasHonest() bool {
 }
 
 // c10Server builds one scripted sync peer over the harness-made valid chain.
-func c10Server(nt *vfbNet, beh string, valid []*common.Beacon, rng *vfRng, served *int64) func(ctx context.Context, req *proto.SyncRequest, out chan<- *proto.BeaconPacket) {
+func c10Server(nt *vfbNet, beh string, valid []*common.Beacon, rng *vfRng, served *int64, firstPacket ...bool) func(ctx context.Context, req *proto.SyncRequest, out chan<- *proto.BeaconPacket) {
 	id := common.GetCanonicalBeaconID(nt.cfg.BeaconID)
 	k := rng.Range(1, 4)
+	if len(firstPacket) > 0 && firstPacket[0] {
+		k = 0 // a repair consumes one beacon per request: the lie has to be in the first packet
+	}
 	return func(ctx context.Context, req *proto.SyncRequest, out chan<- *proto.BeaconPacket) {
 		atomic.AddInt64(served, 1)
 		nt.run.Count("peer_streams."+beh, 1)
@@ -310,7 +320,13 @@ func c10Participant(run *vfRun, c c10Case) {
 		if h := atomic.LoadUint64(&head); b.Round != h+1 {
 			run.Violation(fmt.Sprintf("C10/out-of-order-stored/participant/%s", kind), fmt.Sprintf("round %d stored while the head is %d (via %s)", b.Round, h, src), info)
 		}
-		atomic.StoreUint64(&head, b.Round)
+	}
+	// the head moves when the base store has accepted the write (a Put whose context was cancelled by the
+	// sync manager fails and is legitimately retried)
+	nt.onPutRet = func(n *vfbNode, b *common.Beacon, src string, err error) {
+		if err == nil && b.Round > 0 && src != "bootstrap" && b.Round > atomic.LoadUint64(&head) {
+			atomic.StoreUint64(&head, b.Round)
+		}
 	}
 	// clocks: move to the time of round Chain, then start in catch-up mode
 	for _, n := range nt.nodes {
@@ -520,7 +536,7 @@ func c10Repair(run *vfRun, c c10Case) {
 	var served int64
 	var peers []net.Peer
 	for i, beh := range c.Peers {
-		nt.syncServers[nt.nodes[i+1].addr] = c10Server(nt, beh, valid, rng, &served)
+		nt.syncServers[nt.nodes[i+1].addr] = c10Server(nt, beh, valid, rng, &served, true)
 		peers = append(peers, net.CreatePeer(nt.nodes[i+1].addr))
 	}
 	v := nt.nodes[0]
@@ -696,6 +712,42 @@ func TestVF_C10(t *testing.T) {
 			default:
 				c10Repair(run, c)
 			}
+		}(idx)
+	}
+	wg.Wait()
+}
+
+// C01 on the repair path: beacons written by ReSync (through the raw store, no other guard) must verify too.
+func TestVF_C01_Repair(t *testing.T) {
+	vfsInstallHook()
+	run := vfNewRun("C01", "syncnet-repair")
+	defer run.Finish()
+	run.SigMap = func(s string) string {
+		if strings.HasPrefix(s, "C10/unverified-beacon-stored/") || strings.HasPrefix(s, "C10/foreign-beacon-stored/") {
+			return "C01/unverifiable-beacon-stored/" + strings.TrimPrefix(strings.TrimPrefix(s, "C10/unverified-beacon-stored/"), "C10/foreign-beacon-stored/")
+		}
+		if strings.HasPrefix(s, "C10/") {
+			return "" // other C10 clauses are not this property's subject
+		}
+		return s
+	}
+	n := vfPick(40, 300)
+	var wg sync.WaitGroup
+	sem := make(chan struct{}, 4)
+	for idx := 0; idx < n; idx++ {
+		wg.Add(1)
+		sem <- struct{}{}
+		go func(idx int) {
+			defer wg.Done()
+			defer func() { <-sem }()
+			c := c10Gen(idx*4 + 2) // the repair cases of the C10 list
+			if c.Mode != "repair" {
+				return
+			}
+			if idx == 0 {
+				run.Sample(c)
+			}
+			c10Repair(run, c)
 		}(idx)
 	}
 	wg.Wait()
